@@ -8,10 +8,15 @@ theorems assume (in-order runs)."""
 import sched_common as sc
 
 TRUSTED = ["harness/sched_common.py: fake cluster behind the Bridge seam (mirrors coq/theories/Sched/Model.v); deadlock and spin detectors"]
+TRUSTED += ["harness/sched_heur.py: recorder wrapped around cascade.controller.impl.{has_computable,assign,plan,initialize} and "
+            "cascade.scheduler.assign._assignment_heuristic (oracle values and scheduling state per loop iteration)"]
 ASSUMPTIONS = ["feasible environments only: >= 1 worker, a GPU worker exists if a task needs one",
                "fair cluster: every commanded step eventually completes (the fake cluster completes enabled steps at random)",
                "assign_progress (after the assign phase: something computable implies something running) is validated per round, not proved",
-               "a bound on the number of rounds is not proved"]
+               "a bound on the number of rounds is not proved",
+               "Sched/ProgressFull.v (heuristic modelled in Sched/Heur.v): assign_progress is PROVED for the heuristic-driven system under wf_comps (checked "
+               "on every recorded preschedule), feasible J E and in-order delivery; distances/overheads/values and set/dict iteration orders are an oracle "
+               "recorded from the real State; the tables worker2task_distance/overhead/values themselves (and KeyErrors from them) are not modelled"]
 
 
 def gen_c03(rng, max_tasks=10):
@@ -27,7 +32,11 @@ def run(ctx, res):
     res.rule = ("random DAGs (incl. empty jobs, several components, more components than hosts and fewer) x feasible clusters x delivery modes "
                 "fifo/batchy (in order) and shuffle/newest (arbitrary reordering); non-trivial = >= 2 tasks and >= 6 steps; distinct by (job, cluster, mode)")
     sc.run_family(ctx, res, "C03", ctx.n(280, 6000), gen=gen_c03, max_tasks=ctx.n(10, 14))
+    # additional part: the assignment heuristic itself (Sched/Heur.v) against the real scheduler.api.assign
+    import sched_heur
+    sched_heur.run_part(ctx, res, ctx.n(120, 2500), gen_c03, max_tasks=ctx.n(10, 14))
     if ctx.tier == "thorough":
+        sched_heur.run_part(ctx, res, 0, gen_c03, cases=sc.exhaustive_cases(ctx.sub_rng("exh-heur")), tag="heurexh")
         sc.run_family(ctx, res, "C03", 0, cases=sc.exhaustive_cases(ctx.sub_rng("exh")))
         res.extra["exhaustive_small_scope"] = "all jobs with <= 3 tasks (1-2 outputs, <= 2 inputs) x 4 cluster shapes x 3 requested-output sets x 2 delivery modes"
 
